@@ -55,7 +55,13 @@ def hParEpochs : Handler := fun j => do
       let multi := (pops.zip (pops.drop 1)).any (fun (a, b) => a.species.length ≥ 2 && b.reg.nextInn > a.reg.nextInn)
       return { corr := true, spec := why == "", nontrivial := multi, cls := cls, detail := why,
                sig := if why == "" then "" else (if implErr.isSome && runWhy == "" then "parEpochs:error:" ++ implErr.getD "" else "parEpochs:guarantee"),
-               props := [("C16", why == "", why, if implErr.isSome && runWhy == "" then "parEpochs:error:" ++ implErr.getD "" else "parEpochs:guarantee")] }
+               props := [("C16", why == "", why, if implErr.isSome && runWhy == "" then "parEpochs:error:" ++ implErr.getD "" else "parEpochs:guarantee"),
+                         -- C02 does not name an executor: its guarantees (size, partition, fresh generation, ids, ages, no error
+                         -- on a valid population) evaluated on the parallel executor's turnovers
+                         (let stepWhy := if (stepWhy.splitOn "shared by the reproduction goroutines").length > 1 then "" else stepWhy  -- that clause is C16's
+                          let c02 := if stepWhy != "" then stepWhy else
+                                       (let r := ParSpec.speciesIdsWhy pops; if r != "" then r else errWhy)
+                          ("C02", c02 == "", c02, if implErr.isSome && stepWhy == "" then "parEpochs:error:" ++ implErr.getD "" else "parEpochs:guarantee"))] }
   | _, _ => return { corr := true, spec := true, nontrivial := false, cls := cls ++ ":empty" }
 
 def hTwinRun : Handler := fun j => do
